@@ -176,3 +176,10 @@ Theorem c15_embedded_opens_checked : forall b s r p, a_pu_opens b = Ok (s, r, p)
 Proof. exact c15_embedded_opens_checked_proof. Qed.
 Check c15_embedded_opens_checked : forall b s r p, a_pu_opens b = Ok (s, r, p) -> open_check s = Ok tt /\ open_check r = Ok tt.
 Print Assumptions c15_embedded_opens_checked.
+
+(* and conversely every OPEN that passes OpenMessage's own check (C03: exactly the encodings of fixed fields and ok parameters)
+   satisfies open_ok: c15_peer_up_faithful holds for every pair of checked OPEN messages *)
+Theorem c15_open_ok_checked : forall o, open_check o = Ok tt -> open_ok o.
+Proof. exact open_ok_of_check. Qed.
+Check c15_open_ok_checked : forall o, open_check o = Ok tt -> open_ok o.
+Print Assumptions c15_open_ok_checked.
